@@ -316,7 +316,39 @@ pub fn inputs_c19(r: &mut Rng, n: usize, _tier: &str, out: &mut dyn Write) {
                 let f = render_format(r, &toks, true, false);
                 emit_format(r, out, &f, ts);
             }
-            8..=13 => {
+            13 => {
+                // size extremes: 14-16 tokens drawn mostly from the widest fields (%f nine digits, %A / %B up to nine
+                // letters, %z six characters), two separators after each -- the longest texts the formatter can print
+                // (seeded change C19-9: a 144-byte stack buffer, i.e. 16 fields of nine characters WITHOUT separators)
+                let k = 14 + r.below(3) as usize;
+                let toks: Vec<char> = (0..k).map(|_| *r.pick(&['f', 'f', 'f', 'A', 'B', 'A', 'B', 'z', 'T', 'Y', 'j', 'H'])).collect();
+                let mut f = String::new();
+                for (i, t) in toks.iter().enumerate() {
+                    f.push('%');
+                    f.push(*t);
+                    if i + 1 < toks.len() {
+                        f.push(pick_sep(r, false));
+                        f.push(pick_sep(r, false));
+                    }
+                }
+                // a Wednesday in September (both names have nine letters) half of the time
+                if r.chance(1, 2) {
+                    let y = 1950 + r.below(150) as i64;
+                    let mut d = 1;
+                    while d < 30 && s2e(&estr(total_of(y, 9, d, 0, TimeScale::TAI), TimeScale::TAI)).weekday() != hifitime::Weekday::Wednesday {
+                        d += 1;
+                    }
+                    let e = estr(total_of(y, 9, d, pick_tod(r), ts), ts);
+                    if f.contains("%z") {
+                        writeln!(out, "format {} {} {}", hexfmt(&f), e, dstr(pick_offset(r))).unwrap();
+                    } else {
+                        writeln!(out, "format {} {}", hexfmt(&f), e).unwrap();
+                    }
+                } else {
+                    emit_format(r, out, &f, ts);
+                }
+            }
+            8..=12 => {
                 let unnamed = r.chance(1, 3);
                 let toks = any_tokens_x(r, unnamed);
                 let f = render_format(r, &toks, true, false);
